@@ -144,6 +144,12 @@ func verifStub(seg segment.Segment) *verifSeg {
 		return t
 	case *verifPSeg:
 		return &t.verifSeg
+	case *verifUSeg:
+		return &t.verifSeg
+	case *verifCUSeg:
+		return &t.verifSeg
+	case *verifSizedSeg:
+		return &t.verifSeg
 	}
 	return nil
 }
